@@ -77,7 +77,8 @@ def check(run):
     scs = []
     eods = ["completion", 0xa0] + ([c for c in range(256) if c != 0xa0] if th else rng.sample(range(256), 6))
     for h in hists:
-        for pending in (None, "bare", rng.randrange(1, 9999)):
+        # dangling receipt numbers: none, a reply without the field, a random one, and the ends of the 4-digit range
+        for pending in (None, "bare", rng.randrange(1, 10000), rng.choice([1, 9999, 9998, 0])):
             eod = rng.choice(eods) if len(h) > 2 else None
             for e in ([eod] if eod is not None else eods):
                 scs.append(plan(S, h, rng, pending, e))
